@@ -16,6 +16,16 @@ let parse_parlit (t : toks) =
   let rec sizes = function a :: (b :: _ as tl) -> nat_of_int (b - a) :: sizes tl | _ -> [] in
   (nr, rows, sizes frow)
 
+(* nnz (i j v)*  ->  n rows in triple order *)
+let parse_trip (t : toks) (n : int) =
+  let nnz = next_int t in
+  let rows = Array.make n [] in
+  for _ = 1 to nnz do
+    let i = next_int t in let j = next_int t in let v = next_q t in
+    rows.(i) <- (nat_of_int j, v) :: rows.(i)
+  done;
+  Array.to_list (Array.map List.rev rows)
+
 let rows_str (rows : (nat * qc) list list) : string =
   String.concat " "
     (List.map (fun r ->
@@ -37,6 +47,36 @@ let run_case cid (t : toks) =
     Printf.printf "%s SEQ %d %s\n" cid nr (rows_str s);
     let p = q_strength_par sym theta nv vars part rows in
     Printf.printf "%s PAR %d %s\n" cid (List.length p) (rows_str p)
+  | "interp" ->
+    (* kind nv n vars[n] states[n]  A: nnz (i j v)*  S: nnz (i j v)*  part: P sizes[P]  CHK m (dist nr rows)*m *)
+    let kind = next t in
+    let nv = next_nat t in
+    let n = next_int t in
+    let vars = next_nats t n in
+    let states = next_nats t n in
+    let a = parse_trip t n in
+    let s = parse_trip t n in
+    let np = next_int t in
+    let part = next_nats t np in
+    let p = (match kind with
+        | "direct" -> q_direct a s states
+        | "modcls" -> q_mod_classical a s states nv vars
+        | "extended" -> q_extended a s states nv vars
+        | _ -> failwith ("kind " ^ kind)) in
+    Printf.printf "%s PSEQ %d %s\n" cid (List.length p) (rows_str p);
+    if kind = "direct" then begin
+      let pp = q_par_direct a s states part in
+      Printf.printf "%s PPAR %d %s\n" cid (List.length pp) (rows_str pp) end;
+    if has_more t then begin
+      let _ = next t in
+      let m = next_int t in
+      let res = take m (fun () ->
+          let dist = next_nat t in
+          let nr = next_int t in
+          let pm = take nr (fun () -> let k = next_int t in
+                             take k (fun () -> let c = next_nat t in let v = next_q t in (c, v))) in
+          if q_interp_ok dist (if kind = "direct" then nat_of_int 1 else nv) vars a s states pm then "1" else "0") in
+      Printf.printf "%s CHK %s\n" cid (String.concat " " res) end
   | _ -> Printf.printf "%s UNSUPPORTED %s\n" cid op
 
 let () =
